@@ -44,8 +44,8 @@ def fresh(e, fn, depth=0) -> bool:
     return False
 
 
-def check_alias_mutation(ctx, rep, rule: str, scope: Callable, label='') -> int:
-    """scope(module, class name or None, function) -> bool"""
+def check_alias_mutation(ctx, rep, rule: str, scope: Callable, label='', index_stores: bool = False) -> int:
+    """scope(module, class name or None, function) -> bool; index_stores: also `name[…] = v` / `name[…] op= v` (writes into the tensor the name refers to)"""
     n = 0
     for m in ctx.prog.modules.values():
         fns = []
@@ -62,6 +62,12 @@ def check_alias_mutation(ctx, rep, rule: str, scope: Callable, label='') -> int:
                 elif isinstance(st, ast.Expr) and isinstance(st.value, ast.Call) and isinstance(st.value.func, ast.Attribute) and st.value.func.attr.endswith('_') \
                         and not st.value.func.attr.startswith('_') and st.value.func.attr not in ('requires_grad_', 'retain_grad_') and isinstance(st.value.func.value, ast.Name):
                     sites.append((st, st.value.func.value.id))
+            if index_stores:
+                for st in ast.walk(fn):
+                    tgts = st.targets if isinstance(st, ast.Assign) else ([st.target] if isinstance(st, ast.AugAssign) else [])
+                    for t in tgts:
+                        if isinstance(t, ast.Subscript) and isinstance(t.value, ast.Name):
+                            sites.append((st, t.value.id))
             if not sites:
                 continue
             try:
